@@ -134,7 +134,9 @@ impl Arena {
         let commit = self.commit.get();
         let offset = self.offset.get();
 
-        let beg = (offset + alignment - 1) & !(alignment - 1);
+        // Align the address, not the offset: the base is only page aligned.
+        let base = self.base.as_ptr().addr();
+        let beg = ((base + offset + alignment - 1) & !(alignment - 1)) - base;
         let end = beg + bytes;
 
         if end > commit {
